@@ -589,9 +589,18 @@ class C20(Property):
         return op
 
     def known_key(self, c, failure):
-        if c.get('op') in ('float_str_w_uncert', 'number_to_x_uncert') and 'OverflowError' in str(failure):
-            return 'float_str_w_uncert-overflow'
-        return None
+        """the one recorded defect: OverflowError of _float_str_w_uncert when -un_exp >= 309 (xe * 10**309: int too large for float)"""
+        if c.get('op') not in ('float_str_w_uncert', 'number_to_x_uncert') or 'xef' not in c:
+            return None
+        if not str(failure).endswith('raised OverflowError'):
+            return None
+        xe = F(fx(c['xef']))
+        if xe == 0:
+            return None
+        p = c.get('p')
+        p = 2 if p is None else p
+        un_exp = ilog10(abs(xe)) - p + 1
+        return 'float_str_w_uncert-overflow' if -un_exp >= 309 else None
 
 
 PROPERTY = C20()
